@@ -12,6 +12,8 @@ Import ListNotations.
 (** ** recursive side conditions; [dc]: a node may close several branches (fix 0460546 of read_cgsmiles) *)
 Section RG.
 Variable dc : bool.
+(** [bmok]: branches may carry multipliers (the conditions then describe the SHORTHAND; Reader/ReaderG2Wf.v) *)
+Variable bmok : bool.
 Fixpoint rg_item (fo : float_oracle) (is_last : bool) (it : item) : bool :=
   match it with
   | Item n r m b brs =>
@@ -21,7 +23,7 @@ Fixpoint rg_item (fo : float_oracle) (is_last : bool) (it : item) : bool :=
             match brs with
             | [] => true
             | Branch c bm a :: tl =>
-                negb (is_some bm) && (negb (is_some a) || negb (is_nil tl) || negb is_last)
+                (bmok || negb (is_some bm)) && (negb (is_some a) || negb (is_nil tl) || negb is_last)
                 && (fix ch (c : list item) : bool :=
                       match c with
                       | [] => true
@@ -42,7 +44,7 @@ Fixpoint rg_bchain (fo : float_oracle) (c : list item) : bool :=
   end.
 Definition rg_branch (fo : float_oracle) (tail_ok : bool) (br : branch) : bool :=
   match br with
-  | Branch c bm a => negb (is_some bm) && (negb (is_some a) || tail_ok) && rg_bchain fo c
+  | Branch c bm a => (bmok || negb (is_some bm)) && (negb (is_some a) || tail_ok) && rg_bchain fo c
   end.
 Fixpoint rg_branches (fo : float_oracle) (is_last : bool) (brs : list branch) : bool :=
   match brs with
@@ -103,16 +105,19 @@ Qed.
 Definition last_plain (c : list item) : bool :=
   match rev c with it :: _ => is_nil (i_branches it) | [] => true end.
 Definition good (fo : float_oracle) (c : chain) : Prop :=
-  forallb (item_ok fo) (flat_chain c) = true /\ has_branch_mult c = false /\ (dc = false -> cls_double_close c = false).
+  forallb (item_ok fo) (flat_chain c) = true /\ (bmok = false -> has_branch_mult c = false) /\ (dc = false -> cls_double_close c = false).
 Lemma good_cons fo n r m b brs c : good fo (Item n r m b brs :: c) ->
   item_ok fo (Item n r m b brs) = true
-  /\ (forall br, In br brs -> b_mult br = None /\ (dc || last_plain (b_chain br)) = true /\ good fo (b_chain br))
+  /\ (forall br, In br brs -> (bmok = false -> b_mult br = None) /\ (dc || last_plain (b_chain br)) = true /\ good fo (b_chain br))
   /\ good fo c.
 Proof.
   intros (H1 & H2 & H3).
-  unfold has_branch_mult in *. rewrite sites_cons in H2.
-  rewrite !existsb_app in H2. apply orb_false_elim in H2 as [H2a H2]. apply orb_false_elim in H2 as [H2b H2c].
-  rewrite existsb_flat_map in H2b.
+  assert (H2' : bmok = false -> existsb (fun s => is_some (b_mult (snd s))) (local_sites (Item n r m b brs)) = false
+                               /\ existsb (fun x => existsb (fun s => is_some (b_mult (snd s))) (sites (b_chain x))) brs = false
+                               /\ has_branch_mult c = false).
+  { intros Hb. specialize (H2 Hb). unfold has_branch_mult in *. rewrite sites_cons in H2.
+    rewrite !existsb_app in H2. apply orb_false_elim in H2 as [H2a H2]. apply orb_false_elim in H2 as [H2b H2c].
+    rewrite existsb_flat_map in H2b. repeat split; assumption. }
   rewrite flat_chain_cons in H1. cbn [forallb] in H1.
   apply andb_prop in H1 as [H1a H1]. rewrite forallb_app in H1. apply andb_prop in H1 as [H1b H1c].
   rewrite forallb_flat_map in H1b.
@@ -127,13 +132,15 @@ Proof.
   { intros Hdc. specialize (H3 Hdc). unfold cls_double_close in H3. rewrite sites_cons, !existsb_app in H3.
     apply orb_false_elim in H3 as [H3a H3]. apply orb_false_elim in H3 as [H3b H3c]. rewrite existsb_flat_map in H3b. repeat split; assumption. }
   split; [assumption|]. split.
-  - intros br Hin. destruct (existsb_local _ _ H2a br Hin) as (j1 & Hj1). cbn [snd] in Hj1.
-    split; [now destruct (b_mult br)|]. rewrite forallb_forall in H1b. specialize (H1b br Hin). split.
+  - intros br Hin. split.
+    { intros Hb. destruct (H2' Hb) as (H2a & _ & _). destruct (existsb_local _ _ H2a br Hin) as (j1 & Hj1). cbn [snd] in Hj1. now destruct (b_mult br). }
+    rewrite forallb_forall in H1b. specialize (H1b br Hin). split.
     + destruct (Bool.bool_dec dc true) as [Hdc|Hdc]; [now rewrite Hdc|]. apply not_true_is_false in Hdc.
       destruct (H3' Hdc) as (H3a & _ & _). destruct (existsb_local _ _ H3a br Hin) as (j2 & Hj2). cbn [snd] in Hj2.
       apply orb_true_iff. right. unfold last_plain. destruct (rev (b_chain br)) as [|z ?]; [reflexivity|]. now destruct (i_branches z).
-    + split; [assumption|]. split; [apply (Hf br Hin _ H2b)|]. intros Hdc. destruct (H3' Hdc) as (_ & H3b & _). apply (Hf br Hin _ H3b).
-  - split; [assumption|]. split; [assumption|]. intros Hdc. now destruct (H3' Hdc) as (_ & _ & ?).
+    + split; [assumption|]. split; [intros Hb; destruct (H2' Hb) as (_ & H2b & _); apply (Hf br Hin _ H2b)|].
+      intros Hdc. destruct (H3' Hdc) as (_ & H3b & _). apply (Hf br Hin _ H3b).
+  - split; [assumption|]. split; [intros Hb; now destruct (H2' Hb) as (_ & _ & ?)|]. intros Hdc. now destruct (H3' Hdc) as (_ & _ & ?).
 Qed.
 
 (** consumers, one level at a time *)
@@ -161,12 +168,13 @@ Proof.
   assert (E2 : forall p, (forall br, In br brs -> existsb p (sites (b_chain br)) = false) ->
                          existsb (fun x => existsb p (sites (b_chain x))) brs = false).
   { intros p Hp. apply not_true_is_false. intros E. apply existsb_exists in E as (br & Hin & E). rewrite (Hp br Hin) in E. discriminate. }
-  destruct H as (_ & G2 & G3). unfold has_branch_mult in G2. rewrite sites_cons, !existsb_app in G2.
-  apply orb_false_elim in G2 as [G2 _].
+  destruct H as (_ & G2 & G3).
   split; [|split].
   - rewrite flat_chain_cons. cbn [forallb]. rewrite H1. cbn [andb]. now rewrite !app_nil_r, forallb_flat_map, E1.
-  - unfold has_branch_mult. rewrite sites_cons, !app_nil_r, !existsb_app, existsb_flat_map, G2, E2; [reflexivity|].
-    intros br Hin. now destruct (Hb br Hin) as (_ & ? & _).
+  - intros Hbm. specialize (G2 Hbm). unfold has_branch_mult in *. rewrite sites_cons, !existsb_app in G2.
+    apply orb_false_elim in G2 as [G2 _].
+    rewrite sites_cons, !app_nil_r, !existsb_app, existsb_flat_map, G2, E2; [reflexivity|].
+    intros br Hin. destruct (Hb br Hin) as (_ & Hx & _). now apply Hx.
   - intros Hdc. specialize (G3 Hdc). unfold cls_double_close in *. rewrite sites_cons, !existsb_app in G3.
     apply orb_false_elim in G3 as [G3 _].
     rewrite sites_cons, !app_nil_r, !existsb_app, existsb_flat_map, G3, E2; [reflexivity|].
@@ -208,8 +216,11 @@ Proof.
     induction brs as [|[c bm a] tl IHb]; [reflexivity|].
     inversion Hbrs as [|? ? Hb Htl]; subst. cbn [b_chain] in Hb.
     cbn [cons_brs] in Hc2. apply andb_prop in Hc2 as [Hc2 Hc3]. apply andb_prop in Hc2 as [Hca Hcc].
-    destruct (H3 (Branch c bm a) (or_introl eq_refl)) as (Hm & Hl & Hgc). cbn [b_mult b_chain] in Hm, Hl, Hgc. subst bm.
-    cbn [rg_branches rg_branch is_some negb andb].
+    destruct (H3 (Branch c bm a) (or_introl eq_refl)) as (Hm & Hl & Hgc). cbn [b_mult b_chain] in Hm, Hl, Hgc.
+    cbn [rg_branches rg_branch].
+    assert (Hbm : (bmok || negb (is_some bm)) = true).
+    { destruct (Bool.bool_dec bmok true) as [E|E]; [now rewrite E|]. apply not_true_is_false in E. rewrite (Hm E). now rewrite orb_true_r. }
+    rewrite Hbm. cbn [andb].
     rewrite (bchain_rg fo c Hb Hgc Hcc Hl), andb_true_r.
     assert (Ht : (negb (is_some a) || (negb (is_nil tl) || negb is_last)) = true) by (now rewrite orb_assoc).
     rewrite Ht. cbn [andb]. apply IHb; [assumption|assumption|].
@@ -218,7 +229,7 @@ Proof.
 Qed.
 
 (** L2 *)
-Theorem rg_of_wf_gen fo a : wf fo a = true -> has_branch_mult a = false -> (dc = false -> cls_double_close a = false) ->
+Theorem rg_of_wf_gen fo a : wf fo a = true -> (bmok = false -> has_branch_mult a = false) -> (dc = false -> cls_double_close a = false) ->
   rg_chain fo a = true.
 Proof.
   intros Hwf Hb Hd. unfold wf in Hwf. apply andb_prop in Hwf as [Hwf _]. apply andb_prop in Hwf as [Hwf Hcons].
@@ -256,11 +267,11 @@ Definition node_lin (n : pystr) (r : list (option sym * marker)) (m : option (li
   {| l_open := false; l_name := n; l_mult := m; l_rings := r; l_bond := b; l_close := None |}.
 
 (** ** L1: the recursive conditions give a flat form *)
-Definition item_flat (fo : float_oracle) (it : item) : Prop := forall is_last, rg_item false fo is_last it = true ->
+Definition item_flat (fo : float_oracle) (it : item) : Prop := forall is_last, rg_item false false fo is_last it = true ->
   exists rest, lin_item it = Some (node_lin (i_name it) (i_rings it) (i_mult it) (i_bond it) :: rest)
                /\ forallb (lin_ok fo) (node_lin (i_name it) (i_rings it) (i_mult it) (i_bond it) :: rest) = true
                /\ balanced rest /\ (i_branches it = [] -> rest = []).
-Definition branch_flat (fo : float_oracle) (br : branch) : Prop := forall tail_ok, rg_branch false fo tail_ok br = true ->
+Definition branch_flat (fo : float_oracle) (br : branch) : Prop := forall tail_ok, rg_branch false false fo tail_ok br = true ->
   exists l, lin_branch br = Some l /\ forallb (lin_ok fo) l = true /\ balanced l.
 
 Lemma node_lin_ok fo n r m b brs :
@@ -274,7 +285,7 @@ Qed.
 Lemma concat_opt_some {A} (a : list A) r :
   concat_opt (Some a :: r) = match concat_opt r with Some y => Some (a ++ y) | None => None end.
 Proof. reflexivity. Qed.
-Lemma bchain_flat fo c : Forall (item_flat fo) c -> c <> [] -> rg_bchain false fo c = true ->
+Lemma bchain_flat fo c : Forall (item_flat fo) c -> c <> [] -> rg_bchain false false fo c = true ->
   exists pre z, concat_opt (map lin_item c) = Some (pre ++ [z])
     /\ forallb (lin_ok fo) (pre ++ [z]) = true /\ balanced pre
     /\ l_open z = false /\ l_close z = None /\ l_bond z = None
@@ -336,7 +347,7 @@ Proof.
 Qed.
 
 Lemma branches_flat fo is_last brs : Forall (branch_flat fo) brs ->
-  forallb (fun br => negb (is_nil (b_chain br))) brs = true -> rg_branches false fo is_last brs = true ->
+  forallb (fun br => negb (is_nil (b_chain br))) brs = true -> rg_branches false false fo is_last brs = true ->
   exists rest, concat_opt (map lin_branch brs) = Some rest /\ forallb (lin_ok fo) rest = true /\ balanced rest
                /\ (brs = [] -> rest = []).
 Proof.
@@ -372,7 +383,7 @@ Proof.
     exists w. cbn [lin_branch]. rewrite Ec. split; [exact Ew|]. split; assumption.
 Qed.
 
-Lemma chain_flat fo c : rg_chain false fo c = true -> c <> [] ->
+Lemma chain_flat fo c : rg_chain false false fo c = true -> c <> [] ->
   exists i t, linearize c = Some (i :: t) /\ forallb (lin_ok fo) (i :: t) = true /\ balanced (i :: t) /\ l_open i = false.
 Proof.
   induction c as [|x c IH]; intros Hrg Hne; [contradiction|]. unfold linearize in *.
@@ -391,15 +402,15 @@ Proof.
 Qed.
 
 (** L1 *)
-Theorem flat_ok_of_rg fo a : rg_chain false fo a = true -> a <> [] -> flat_ok fo a = true.
+Theorem flat_ok_of_rg fo a : rg_chain false false fo a = true -> a <> [] -> flat_ok fo a = true.
 Proof.
   intros Hrg Hne. destruct (chain_flat fo a Hrg Hne) as (i & t & El & Hok & Hbal & Hop).
   unfold flat_ok. rewrite El. unfold lins_ok. rewrite Hok, Hop. rewrite lin_depth_drun, (Hbal O). reflexivity.
 Qed.
 
 (** the combination for flat items with at most one closing *)
-Theorem rg_of_wf fo a : wf fo a = true -> has_branch_mult a = false -> cls_double_close a = false -> rg_chain false fo a = true.
-Proof. intros Hwf Hb Hd. apply rg_of_wf_gen; [assumption|assumption|intros _; exact Hd]. Qed.
+Theorem rg_of_wf fo a : wf fo a = true -> has_branch_mult a = false -> cls_double_close a = false -> rg_chain false false fo a = true.
+Proof. intros Hwf Hb Hd. apply rg_of_wf_gen; [assumption|intros _; assumption|intros _; exact Hd]. Qed.
 Theorem flat_ok_of_wf fo a : wf fo a = true -> has_branch_mult a = false -> cls_double_close a = false -> flat_ok fo a = true.
 Proof.
   intros Hwf Hb Hd. apply flat_ok_of_rg; [now apply rg_of_wf|].
